@@ -67,8 +67,7 @@ func TestC08(t *testing.T) {
 	var sc Scenario
 	if loadReplay(t, &sc) {
 		if msg, _ := checkLiveness(&sc); msg != "" {
-			st.Violate(msg, &sc)
-			t.Fatal(msg)
+			fail(st, t, msg, &sc)
 		}
 		return
 	}
@@ -95,8 +94,7 @@ func TestC08(t *testing.T) {
 		}
 		if msg, _ := checkLiveness(sc); msg != "" {
 			sc.Note = msg
-			st.Violate(msg, sc)
-			rt.Fatalf("%s", msg)
+			fail(st, rt, msg, sc)
 		}
 	})
 }
